@@ -25,15 +25,10 @@ class VtOrd4(callbacks.Plugin):
             self.vt_serial = c.serial
         super().__init__(irc)
 
-    @property
-    def callBefore(self):
-        c = _cfg()
-        return tuple(c.before.get('VtOrd4', ())) if c is not None else ()
-
-    @property
-    def callAfter(self):
-        c = _cfg()
-        return tuple(c.after.get('VtOrd4', ())) if c is not None else ()
+    # plain class attributes, as real plugins have them (fixed when the module is executed, i.e. at every
+    # load / reload; the harness keeps the sets constant during a trial)
+    callBefore = tuple(getattr(_cfg(), 'before', {}).get('VtOrd4', ())) if _cfg() is not None else ()
+    callAfter = list(getattr(_cfg(), 'after', {}).get('VtOrd4', ())) if _cfg() is not None else []
 
     def die(self):
         c = _cfg()
